@@ -59,33 +59,33 @@ def pyRepr (printable : Char → Bool) (s : S) : S :=
   let q := quoteOf s
   q :: (escAll printable q s ++ [q])
 
+def hexCons (n : Option Nat) (t : Option S) : Option S :=
+  match n, t with
+  | some n, some t => some (Char.ofNat n :: t)
+  | _, _ => none
+
+def chCons (c : Option Char) (t : Option S) : Option S :=
+  match c, t with
+  | some c, some t => some (c :: t)
+  | _, _ => none
+
+/-- the one-character escapes `repr` produces -/
+def simpleEsc (x : Char) : Option Char :=
+  if x = 't' then some '\t' else if x = 'n' then some '\n' else if x = 'r' then some '\r'
+  else if x = '\\' ∨ x = '\'' ∨ x = '"' then some x else none
+
 /-- body of a short string literal opened with quote `q`, up to and including the closing quote; `none` = not a
 well-formed literal (or trailing text after the closing quote) -/
 def unq (q : Char) : S → Option S
   | [] => none
-  | '\\' :: 'x' :: a :: b :: r =>
-    match ofHex 0 [a, b], unq q r with
-    | some n, some t => some (Char.ofNat n :: t)
-    | _, _ => none
-  | '\\' :: 'u' :: a :: b :: c :: d :: r =>
-    match ofHex 0 [a, b, c, d], unq q r with
-    | some n, some t => some (Char.ofNat n :: t)
-    | _, _ => none
-  | '\\' :: 'U' :: a :: b :: c :: d :: e :: f :: g :: h :: r =>
-    match ofHex 0 [a, b, c, d, e, f, g, h], unq q r with
-    | some n, some t => some (Char.ofNat n :: t)
-    | _, _ => none
-  | '\\' :: x :: r =>
-    let ch : Option Char :=
-      if x = 't' then some '\t' else if x = 'n' then some '\n' else if x = 'r' then some '\r'
-      else if x = '\\' ∨ x = '\'' ∨ x = '"' then some x else none
-    match ch, unq q r with
-    | some c, some t => some (c :: t)
-    | _, _ => none
+  | '\\' :: 'x' :: a :: b :: r => hexCons (ofHex 0 [a, b]) (unq q r)
+  | '\\' :: 'u' :: a :: b :: c :: d :: r => hexCons (ofHex 0 [a, b, c, d]) (unq q r)
+  | '\\' :: 'U' :: a :: b :: c :: d :: e :: f :: g :: h :: r => hexCons (ofHex 0 [a, b, c, d, e, f, g, h]) (unq q r)
+  | '\\' :: x :: r => chCons (simpleEsc x) (unq q r)
   | c :: r =>
     if c = q then (if r = [] then some [] else none)
     else if c = '\n' then none
-    else (unq q r).map (c :: ·)
+    else chCons (some c) (unq q r)
 
 /-- reading a literal produced by `repr` -/
 def pyUnquote : S → Option S
@@ -113,5 +113,18 @@ def endsIndexed (s : S) : Bool :=
   let r := s.reverse
   let ds := r.takeWhile isDigit
   !ds.isEmpty && (r.drop ds.length).head? == some '_'
+
+/-- the local holding the parsed value of field `name` in a generated v1 `from_dict` (v1/loaders.py `_field_var`) -/
+def fieldVar (name : S) : S := '_' :: '_' :: (name ++ ['_', '_', 'v'])
+
+/-- closure helpers of the same function -/
+def isoHelper (tn : S) : S := '_' :: '_' :: (tn ++ "_fromisoformat".toList)
+def tsHelper (tn : S) : S := '_' :: '_' :: (tn ++ "_fromtimestamp".toList)
+def fromDictHelper (cls : S) : S := "__dataclass_wizard_from_dict_".toList ++ cls ++ ['_', '_']
+def asDatetimeHelper : S := "__as_datetime".toList
+def tzHelper : S := "__tz".toList
+
+/-- the numbered variant used when `<name>_<i>` is already bound to another type -/
+def typeLocalN (name : S) (i n : Nat) : S := typeLocal name i ++ '_' :: dec n
 
 end DW.Names
